@@ -881,31 +881,62 @@ def boundary_points():
                 pts.add(p)
     for rng_ in ((0x41, 0x5b), (0x61, 0x7b), (0x370, 0x400), (0x400, 0x460), (0x10400, 0x10450), (0xc0, 0x100)):
         pts.update(range(*rng_))
+    # the ranges of the XML NameStartChar / NameChar productions, +-1
+    for a, b in ((0x3a, 0x3a), (0x41, 0x5a), (0x5f, 0x5f), (0x61, 0x7a), (0xc0, 0xd6), (0xd8, 0xf6), (0xf8, 0x2ff), (0x370, 0x37d),
+                 (0x37f, 0x1fff), (0x200c, 0x200d), (0x2070, 0x218f), (0x2c00, 0x2fef), (0x3001, 0xd7ff), (0xf900, 0xfdcf),
+                 (0xfdf0, 0xfffd), (0x10000, 0xeffff), (0x2d, 0x2e), (0x30, 0x39), (0xb7, 0xb7), (0x300, 0x36f), (0x203f, 0x2040)):
+        pts.update((a - 1, a, a + 1, b - 1, b, b + 1))
     return sorted(p for p in pts if 0 <= p <= 0x10ffff and not (0xd800 <= p <= 0xdfff))
+
+
+def wide_points():
+    """the thorough point set: every code point below U+3100, every 61st scalar value above, and
+    the boundary points of the quick tier"""
+    pts = set(boundary_points()) | set(range(0, 0x3100)) | set(range(0x3100, 0x110000, 61))
+    return sorted(p for p in pts if not (0xd800 <= p <= 0xdfff))
 
 
 def sweep_compare(ctx, pats, points, prop, why):
     """pats: list of (dialect, flags, pattern, tag).  Code membership (is_match on one-character
-    inputs) against the specification's membership, on the given points ('all' or list)."""
-    pts = "all" if points == "all" else ".".join("%x" % p for p in points)
+    inputs) against the specification's membership, on the given points.  points == 'wide': the
+    code is first swept over every scalar value; each pattern is then compared on wide_points()
+    plus the boundaries (+-1) of the set the code itself reported - two unions of ranges that differ
+    differ at a boundary of one of them, and the code's boundaries are all there."""
+    own = {}
+    if points == "wide":
+        base = wide_points()
+        all_lines = ["\t".join([str(i), d, tie.enc(fl), tie.enc(p), "all"]) for i, (d, fl, p, tag) in enumerate(pats)]
+        for cid, r in tie.run_tool([tie.HARNESS, "sweep"], all_lines, "sweep").items():
+            extra = set()
+            if r and r.startswith("ok"):
+                for rg in r.split()[1:]:
+                    a, b = (int(x, 16) for x in rg.split("-"))
+                    extra.update((a - 1, a, a + 1, b - 1, b, b + 1))
+            own[cid] = sorted(x for x in set(base) | extra if 0 <= x <= 0x10ffff and not (0xd800 <= x <= 0xdfff))
+        points = base
     code_lines, spec_lines, model_lines = [], [], []
     for i, (d, fl, p, tag) in enumerate(pats):
+        pts = ".".join("%x" % q for q in own.get(str(i), points))
         code_lines.append("\t".join([str(i), d, tie.enc(fl), tie.enc(p), pts]))
         spec_lines.append("\t".join([str(i), "clsmem", d, tie.enc(fl), tie.enc(p), pts]))
     code = tie.run_tool([tie.HARNESS, "sweep"], code_lines, "sweep")
     spec = spec_call(spec_lines)
-    model = tie.run_tool([tie.DRIVER, "mem"], code_lines, "mem") if points != "all" else {}
+    model = tie.run_tool([tie.DRIVER, "mem"], code_lines, "mem")
     violations, dis, nontrivial = [], [], set()
-    npts = 1112064 if points == "all" else len(points)
+    npts = len(points)
+    no_verdict = 0
     for i, (d, fl, p, tag) in enumerate(pats):
         cid = str(i)
         c = Case(cid, d, fl, p, "", "", "sweep", tag)
         cr, sr = code.get(cid), spec.get(cid)
         if model and model.get(cid) != cr:
             dis.append({"case": c.to_json(), "tag": tag, "differs": {"members": {"code": (cr or "")[:300], "model": (model.get(cid) or "")[:300]}}})
-        if sr in ("unspec", "not-a-class", None, "slow", "ABORT"):
+        if sr in ("slow", "ABORT"):
             # no verdict from the specification side (a loaded machine can make its evaluation of a
-            # big case-insensitive class miss the watchdog): no claim on this pattern
+            # big case-insensitive class miss the watchdog): no claim on this pattern, but counted
+            no_verdict += 1
+            continue
+        if sr in ("unspec", "not-a-class", None):
             continue
         nontrivial.add((d, fl, p))
         if sr == "invalid":
@@ -914,6 +945,9 @@ def sweep_compare(ctx, pats, points, prop, why):
             continue
         if cr != sr:
             violations.append(viol(c, sr[:400], (cr or "")[:400], why))
+    # an oracle that answers for (almost) nothing is a broken check, not a passing one
+    if no_verdict * 4 > max(4, len(pats)):
+        raise RuntimeError(f"{prop}: the specification oracle gave no verdict on {no_verdict} of {len(pats)} patterns")
     return pats, dis, violations, nontrivial, npts
 
 
@@ -936,13 +970,13 @@ def slice_C09(ctx):
     for h in hand:
         for fl in ("", "i"):
             pats.append(("xpath", fl, h, "hand"))
-    points = boundary_points() if ctx.quick else "all"
+    points = boundary_points() if ctx.quick else "wide"
     pats, dis, violations, nontrivial, npts = sweep_compare(
         ctx, pats, points, "C09", "the set of characters matched differs from the set algebra on the expression's parts")
     cases = [Case(i, p[0], p[1], p[2], "", "", "sweep", p[3]) for i, p in enumerate(pats)]
     r = result(ctx, cases, dis, violations, nontrivial,
-               f"generated class expressions (nesting <= 3: single characters, ranges, multi-character and category escapes, negation, subtraction; with and without flag i) and 45 hand-written ones; membership of {'every one of the 1,112,064 scalar values' if points == 'all' else str(npts) + ' points (all General_Category range boundaries +-1, name-character boundaries, ASCII/Latin-1/Greek/Cyrillic/Deseret letters, special-casing characters)'} through the public API against the specification's class_mem",
-               {"points_per_pattern": npts, "membership_evaluations": npts * len(pats), "exhaustive": points == "all"})
+               f"generated class expressions (nesting <= 3: single characters, ranges, multi-character and category escapes, negation, subtraction; with and without flag i) and 45 hand-written ones; membership of {'every code point below U+3100, every 61st scalar value above, the boundary points, and the boundaries +-1 of the set the code reports over all 1,112,064 scalar values' if points == 'wide' else str(npts) + ' points (all General_Category range boundaries +-1, name-character boundaries, ASCII/Latin-1/Greek/Cyrillic/Deseret letters, special-casing characters)'} through the public API against the specification's class_mem",
+               {"points_per_pattern": npts, "membership_evaluations": npts * len(pats), "exhaustive": False})
     return r
 
 
@@ -979,10 +1013,13 @@ def slice_C10(ctx):
             pts.update(p for p in (a - 1, a, b, b + 1) if 0 <= p <= 0x10ffff and not (0xd800 <= p <= 0xdfff))
     points = sorted(pts)
     if not ctx.quick:
-        # thorough: categories and multi-character escapes over every scalar value; blocks on boundaries
+        # thorough: categories and multi-character escapes on the wide point set plus every boundary of the
+        # set the code reports over all scalar values; since the boundaries of the specification's sets (the
+        # General_Category tables, the XML name ranges) are among the points too, agreement on these points
+        # is agreement everywhere: two unions of ranges that differ differ next to a boundary of one of them
         small = [p for p in pats if p[3] in ("cat", "multi", "unknown")]
         big = [p for p in pats if p[3] == "block"]
-        _, dis1, v1, n1, np1 = sweep_compare(ctx, small, "all", "C10", "the escape matches a different set than the Unicode / XML data")
+        _, dis1, v1, n1, np1 = sweep_compare(ctx, small, "wide", "C10", "the escape matches a different set than the Unicode / XML data")
         _, dis2, v2, n2, np2 = sweep_compare(ctx, big, points, "C10", "the block escape matches a different range than the shipped block list")
         dis, violations, nontrivial = dis1 + dis2, v1 + v2, n1 | n2
         evals = np1 * len(small) + np2 * len(big)
@@ -991,8 +1028,8 @@ def slice_C10(ctx):
         evals = npts * len(pats)
     cases = [Case(i, p[0], p[1], p[2], "", "", "sweep", p[3]) for i, p in enumerate(pats)]
     return result(ctx, cases, dis, violations, nontrivial,
-                  f"the 36 category names (\\p and \\P), \\d \\w \\s \\i \\c and complements in both dialects, every block of Blocks.txt + CompatBlocks.txt + PrivateUse, and unknown names (must be rejected); membership on {'all scalar values for categories and multi-character escapes, boundary points for blocks' if not ctx.quick else str(len(points)) + ' boundary points'} against the specification (General_Category tables, XML name-character ranges, block list parsed independently)",
-                  {"membership_evaluations": evals, "exhaustive": not ctx.quick})
+                  f"the 36 category names (\\p and \\P), \\d \\w \\s \\i \\c and complements in both dialects, every block of Blocks.txt + CompatBlocks.txt + PrivateUse, and unknown names (must be rejected); membership on {'every code point below U+3100, every 61st above, and every boundary +-1 of the sets on both sides (the code swept over all scalar values, the General_Category tables, the XML name ranges) for categories and multi-character escapes, boundary points for blocks' if not ctx.quick else str(len(points)) + ' boundary points'} against the specification (General_Category tables, XML name-character ranges, block list parsed independently)",
+                  {"membership_evaluations": evals, "exhaustive": False})
 
 
 SLICES = {}
@@ -1110,6 +1147,13 @@ def slice_C11(ctx):
         if rs[4].get("M") == "1" and base.get("M") != "1" and "[^" not in p0 and "-[" not in p0:
             violations.append(viol(byid[ids[0]], "a match without i is a match with i", {"i": base.get("M"), "no-i": "1"},
                                    "flag i loses a match", None, same_as_model(code, model, ids[0])))
+    # class information for the attribution of known findings (only the violating cases)
+    if violations:
+        vc = [Case.from_json(v["case"], cid=str(i)) for i, v in enumerate(violations)]
+        sp = spec_match(vc)
+        for i, v in enumerate(violations):
+            s_ = sp.get(str(i), {})
+            v["spec"] = {k: s_.get(k) for k in ("V", "bf", "bok", "strict", "k1", "k2", "k3") if k in s_}
     for i in exact:
         if code.get(i, {}).get("M") == "1":
             violations.append(viol(byid[i], "is_match=0", "is_match=1", "without flag i a letter matches its case counterpart",
